@@ -252,6 +252,7 @@ def main():
     for modname in ('io', 'utils', 'expansion', 'spans', 'macros', 'blockattributes', 'delimitedblocks',
                     'lineblocks', 'lists', 'quotes', 'replacements', 'options', 'document'):
         local_kinds.update(local_patterns(mods['rimu.' + modname], modname, pats))
+    local_kinds.update(local_patterns(mods['rimuc.rimuc'], 'rimuc', pats))
 
     # -- tables ---------------------------------------------------------------------------------
     D = ['import RimuModel.Generated.Patterns', '',
@@ -326,6 +327,23 @@ def main():
     D.append('def defaultSafeMode : Int := %d' % options.safeMode)
     D.append('def defaultHtmlReplacement : Str := ' + L(options.htmlReplacement))
     D.append('def uninitSafeMode : Int := -1')
+    # rimuc: version, name and the option spellings tested by the argument loop (source order)
+    rc = mods['rimuc.rimuc']
+    D.append('def cliVersion : Str := ' + L(rc.VERSION))
+    D.append('def cliName : Str := ' + L(rc.NAME))
+    with open(rc.__file__) as f:
+        rtree = ast.parse(f.read())
+    arglists = []
+    for node in ast.walk(rtree):
+        if isinstance(node, ast.Compare) and len(node.ops) == 1 and isinstance(node.ops[0], (ast.In, ast.NotIn)) \
+                and isinstance(node.left, ast.Name) and node.left.id in ('arg', 'layout') \
+                and isinstance(node.comparators[0], ast.List) \
+                and all(isinstance(e, ast.Constant) and isinstance(e.value, str) for e in node.comparators[0].elts):
+            arglists.append((node.lineno, node.col_offset, [e.value for e in node.comparators[0].elts]))
+    arglists.sort()
+    D.append('def cliArgLists : List (List Str) := [' + ', '.join(
+        '[' + ', '.join(L(x) for x in lst) + ']' for _, _, lst in arglists) + ']')
+    D.append('def cliResourceNames : List Str := [' + ', '.join(L(k) for k in sorted(mods['rimuc'].resources)) + ']')
     D.append('def maxExpansionDepth : Nat := %d' % int(lb.MAX_EXPANSION_DEPTH))
 
     # quote regex template: run the real synthesis with a sentinel quote
